@@ -139,6 +139,11 @@ func fixedCases() [][2]bson.D {
 		// KF-C10-1: $type "array" over a fan-out path
 		{bson.D{{Key: "a", Value: bson.A{bson.D{{Key: "b", Value: bson.A{int32(1), int32(2)}}}}}}, bson.D{{Key: "a.b", Value: bson.D{{Key: "$type", Value: "array"}}}}},
 		{bson.D{{Key: "a", Value: bson.A{bson.D{{Key: "b", Value: bson.A{}}}}}}, bson.D{{Key: "a.b", Value: bson.D{{Key: "$type", Value: int32(4)}}}}},
+		// KF-C10-3: $size on a path that passes through two arrays; and through one array (agrees with the reference)
+		{bson.D{{Key: "a", Value: bson.A{bson.D{{Key: "b", Value: bson.A{int32(1), int32(2)}}}}}}, bson.D{{Key: "a.b.c", Value: bson.D{{Key: "$size", Value: int32(2)}}}}},
+		{bson.D{{Key: "a", Value: bson.A{bson.D{{Key: "b", Value: bson.A{bson.D{{Key: "c", Value: bson.A{int32(1), int32(2)}}}, bson.D{{Key: "c", Value: bson.A{int32(3)}}}}}}}}}, bson.D{{Key: "a.b.c", Value: bson.D{{Key: "$size", Value: int32(1)}}}}},
+		{bson.D{{Key: "a", Value: bson.A{bson.D{{Key: "b", Value: bson.A{int32(1), int32(2)}}}, bson.D{{Key: "b", Value: bson.A{}}}}}}, bson.D{{Key: "a.b", Value: bson.D{{Key: "$size", Value: int32(2)}}}}},
+		{bson.D{{Key: "a", Value: bson.A{bson.D{{Key: "b", Value: bson.A{int32(1), int32(2)}}}, bson.D{{Key: "b", Value: bson.A{}}}}}}, bson.D{{Key: "a.b", Value: bson.D{{Key: "$size", Value: int32(0)}}}}},
 		// $type on missing and null fields
 		{bson.D{}, bson.D{{Key: "a", Value: bson.D{{Key: "$type", Value: "null"}}}}},
 		{bson.D{{Key: "a", Value: nil}}, bson.D{{Key: "a", Value: bson.D{{Key: "$type", Value: "null"}}}}},
